@@ -1,6 +1,7 @@
 import glob
 import json
 import multiprocessing as mp
+import multiprocessing.pool
 import os
 import shutil
 import sys
@@ -11,6 +12,27 @@ from . import core
 
 HERE = os.path.dirname(os.path.dirname(os.path.abspath(__file__)))
 _MOD = None
+
+
+class _NoDaemonProcess(mp.get_context("fork").Process):
+    # pool workers must be able to start children (DataLoader workers, Manager processes, forked crash victims)
+    @property
+    def daemon(self):
+        return False
+
+    @daemon.setter
+    def daemon(self, value):
+        pass
+
+
+class _NoDaemonContext(type(mp.get_context("fork"))):
+    Process = _NoDaemonProcess
+
+
+class _NoDaemonPool(mp.pool.Pool):
+    def __init__(self, *args, **kwargs):
+        kwargs["context"] = _NoDaemonContext()
+        super().__init__(*args, **kwargs)
 
 
 def load_known(pid):
@@ -63,6 +85,7 @@ def run_property(pid, mod, tier, seed, jobs, only_facets=None, scale=1.0, write_
     tasks.sort(key=lambda t: -mod.FACETS[t[0]].budget.get(tier, 0))
     # committed regression replays (shrunk failures of earlier findings) run first, bypassing Hypothesis
     regress_viol = []
+    regress_errors = []
     n_regress = 0
     for path in sorted(glob.glob(os.path.join(HERE, "replays", pid, "regress-*.json"))):
         with open(path) as fh:
@@ -76,13 +99,14 @@ def run_property(pid, mod, tier, seed, jobs, only_facets=None, scale=1.0, write_
             core.run_one(fs[0], rec["spec"], set(known_sigs), tmp)
         except core.Violation as v:
             regress_viol.append((rec["facet"], v.signature, {"message": v.message, "spec": rec["spec"]}, path))
+        except Exception:
+            regress_errors.append((rec["facet"], "regression replay %s crashed:\n%s" % (os.path.basename(path), traceback.format_exc())))
     results = []
     if jobs <= 1 or len(tasks) == 1:
         for t in tasks:
             results.append(_task(t))
     else:
-        ctx = mp.get_context("fork")
-        with ctx.Pool(min(jobs, len(tasks))) as pool:
+        with _NoDaemonPool(min(jobs, len(tasks))) as pool:
             for r in pool.imap_unordered(_task, tasks):
                 results.append(r)
 
@@ -110,7 +134,7 @@ def run_property(pid, mod, tier, seed, jobs, only_facets=None, scale=1.0, write_
         if f.exhaustive and not r.get("exhaustive_done"):
             m["exhaustive"] = False
 
-    errors = [(n, e) for n, m in per_facet.items() for e in m["errors"]]
+    errors = [(n, e) for n, m in per_facet.items() for e in m["errors"]] + regress_errors
     violations = []
     rdir = os.path.join(os.environ.get("VERIF_REPLAY_DIR") or os.path.join(HERE, "replays"), pid)
     for name, m in per_facet.items():
